@@ -49,6 +49,7 @@ structure TaskSt where
   pending : Bool := true            -- suspended at a yield (or not started): `_continue` must unwrap and send
   started : Bool := false
   lastY : RY := .none               -- `_last_value`
+  prevY : RY := .none               -- the structure yielded last (the program may yield the same object again)
   deps : List Nat := []             -- `_dependencies` in extract_futures order
   depsSched : Bool := false         -- `_dependencies_scheduled`
   ctxs : List Nat := []             -- `_contexts` in entry order
@@ -190,7 +191,7 @@ mutual
 /-- `unwrap`: every future replaced by its value, same shape; the first failing leaf in structure order raises;
     a non-future raises TypeError.  `look f = none` (uncomputed future) cannot happen when the scheduler is right;
     it is reported as `Err.other`. -/
-def unwrap (look : Nat → Option Outcome) : RY → Except Err Val
+def unwrap {α : Type} (look : α → Option Outcome) : YS α → Except Err Val
   | .none => .ok .none
   | .junk => .error .typeerr
   | .f r => match look r with
@@ -206,7 +207,7 @@ def unwrap (look : Nat → Option Outcome) : RY → Except Err Val
   | .dict ks l => match unwrapList look l with
     | .ok vs => .ok (.dict ks vs)
     | .error e => .error e
-def unwrapList (look : Nat → Option Outcome) : List RY → Except Err (List Val)
+def unwrapList {α : Type} (look : α → Option Outcome) : List (YS α) → Except Err (List Val)
   | [] => .ok []
   | y :: ys => match unwrap look y with
     | .error e => .error e
@@ -267,7 +268,7 @@ def State.ctxExit (s : State) (c : Nat) : State :=
   let s := match s.ctxs[c]? with
     | some { kind := _, owner := some o, old := _ } => s.updTask o fun ts => { ts with ctxs := ts.ctxs.erase c }
     | _ => s
-  s.ctxPauseOne c
+  (s.ctxPauseOne c).emit (.ctxX c)
 
 /-- leaving every open with-block of task `t`, innermost first (return / result() / exception) -/
 def State.exitAll (s : State) (t : Nat) : State :=
@@ -441,6 +442,12 @@ def State.genStep (s : State) (t : Nat) (old : Option Nat) : State :=
       | .yld _ _ h, .error e =>
         (s.updTask t fun ts => { ts with pending := false, lastY := .none, deps := if s.cfg.keepDeps then ts.deps else [],
                                          resumes := i, caught := some e, body := h }).emit (.run t i dc (.out (.err e)))
+      | .reyld k _, .ok v =>
+        (s.updTask t fun ts => { ts with pending := false, lastY := .none, deps := if s.cfg.keepDeps then ts.deps else [],
+                                         resumes := i, env := ts.env ++ [v], body := k }).emit (.run t i dc (.out (.ok v)))
+      | .reyld _ h, .error e =>
+        (s.updTask t fun ts => { ts with pending := false, lastY := .none, deps := if s.cfg.keepDeps then ts.deps else [],
+                                         resumes := i, caught := some e, body := h }).emit (.run t i dc (.out (.err e)))
       | _, _ => s.fail "suspended task is not at a yield"
   else
   match ts.body with
@@ -458,14 +465,14 @@ def State.genStep (s : State) (t : Nat) (old : Option Nat) : State :=
     match s.curBatch? kind with
     | none => s.fail "no batch"
     | some b =>
-      let (s, f) := s.alloc { kind := .item kind b.seq payload mode } (.item kind b.seq b.items.length)
+      let (s, f) := s.alloc { kind := .item kind b.seq payload mode } (.item kind b.seq b.items.length payload mode)
       let s := s.updBatch kind b.seq fun b => { b with items := b.items ++ [f] }
       s.updTask t fun ts => { ts with own := ts.own ++ [f], body := k }
   | .const v k =>
-    let (s, f) := s.alloc { kind := .const, out := some (.ok (.a v)) } .const
+    let (s, f) := s.alloc { kind := .const, out := some (.ok (.a v)) } (.const v)
     s.updTask t fun ts => { ts with own := ts.own ++ [f], body := k }
   | .errfut e k =>
-    let (s, f) := s.alloc { kind := .errfut, out := some (.err (.u e)) } .errfut
+    let (s, f) := s.alloc { kind := .errfut, out := some (.err (.u e)) } (.errfut e)
     s.updTask t fun ts => { ts with own := ts.own ++ [f], body := k }
   | .lazy o k =>
     let (s, f) := s.alloc { kind := .lazy o } .lazy
@@ -473,7 +480,13 @@ def State.genStep (s : State) (t : Nat) (old : Option Nat) : State :=
   | .yld y _ _ =>
     let ry : RY := y.mapLeaves ts.resolve
     let deps := (if s.cfg.keepDeps then ts.deps else []) ++ extractFutures ry
-    let s := (s.emit (.yield t ts.resumes ry.leaves)).updTask t fun ts =>
+    let s := (s.emit (.yield t ts.resumes ry)).updTask t fun ts =>
+      { ts with pending := true, lastY := ry, prevY := ry, deps := deps }
+    if deps.isEmpty then s else s.leaveGen t old
+  | .reyld _ _ =>
+    let ry := ts.prevY
+    let deps := (if s.cfg.keepDeps then ts.deps else []) ++ extractFutures ry
+    let s := (s.emit (.yield t ts.resumes ry)).updTask t fun ts =>
       { ts with pending := true, lastY := ry, deps := deps }
     if deps.isEmpty then s else s.leaveGen t old
   | .sync child pass k h =>
@@ -505,6 +518,7 @@ def State.genStep (s : State) (t : Nat) (old : Option Nat) : State :=
   | .withCtx c b k =>
     let cid := s.ctxs.length
     let s := match c with | .override var _ => s.svTouch var | .plain => s
+    let s := s.emit (.ctxN cid t c)
     let s := { s with ctxs := s.ctxs ++ [({ kind := c, owner := s.active } : CtxSt)] }
     -- enter_context registers with the scheduler's active task
     let s := match s.active with
@@ -531,7 +545,7 @@ def State.finishTop (s : State) (f : Nat) : State :=
     | none => (s.out f).getD (.err .other)
   let s := { s with raising := none, curTop := none }
   let s := s.emit (.ret o)
-  let s := s.emit (.sched true s.stack.length s.sbatches.length s.active)
+  let s := s.emit (.sched true s.stack.length s.sbatches.length s.flushable.length s.active)
   s.emit (.svals ((s.sv.mergeSort fun a b => a.1 ≤ b.1).map fun p => (p.1, Val.a p.2)))
 
 def State.isDone (s : State) : Bool := s.stuck.isSome || (s.ctl.isEmpty && s.curTop.isNone && s.tops.isEmpty)
